@@ -45,11 +45,24 @@ def run(ctx):
             pb, opts, out, lls, events, ll_lib, bad, info, desc, inj_kind, trunc, as_file = r
             keys = [b[0] for b in bad]
             if "inconclusive-pattern" in keys or "borderline" in keys or "row_tags" not in info:
-                ctx.count("rejection_sessions_without_row_identity")
                 # the all-logprobs findings of the history checker are still C06's business
                 for key, msg in bad:
                     if key.startswith("all-logprobs"):
                         ctx.violation(key, msg, desc)
+                # the history could not be replayed (e.g. another number of uniforms than the request prescribes), but a
+                # returned row still names its library row through its period: the columns can be judged without the history
+                try:
+                    import astropy.units as u_
+                    tags_, ok_ = session.tags_of(pb, np.asarray(out["P"].to_value(u_.day), dtype=float))
+                except Exception:
+                    tags_, ok_ = None, np.array([False])
+                if tags_ is not None and len(tags_) and bool(np.all(ok_)) and "borderline" not in keys:
+                    ctx.evaluations += 1
+                    ctx.count("rows_identified_by_period_only", len(tags_))
+                    for key, msg in session.check_logprob_columns(pb, opts, out, np.asarray(tags_, dtype=int), ll_lib):
+                        ctx.violation(key, msg, dict(desc, identified="by period only"))
+                else:
+                    ctx.count("rejection_sessions_without_row_identity")
             else:
                 ctx.evaluations += 1
                 na = info.get("n_accept", 0)
